@@ -7,7 +7,9 @@
 // Step kinds: "Set", "Call" (one caller, the call runs to its end), and for overlapping
 // calls "Begin" c / "End" c (forced.go): caller c's OperationHashes runs in its own
 // goroutine and is parked inside the filter callback the harness hands to the pool -
-// no hook in the repository is needed - until the schedule says End. A behaviour with
+// no hook in the repository is needed - until the schedule says End. "Set2" = two
+// overlapping SetOperation calls of one operation, both parked between the pool's check
+// and its write inside the encoder the harness hands to the pool. A behaviour with
 // mode "free" runs the same steps without any forcing (one goroutine per caller, one
 // for the stores).
 package c22
@@ -40,6 +42,7 @@ type stepT struct {
 	L   uint64   `json:"l,omitempty"`
 	Rej []string `json:"rej,omitempty"`
 	C   int      `json:"c,omitempty"`
+	W   int      `json:"w,omitempty"` // Set2: 0 = the store that checked first writes first, 1 = writes last
 }
 
 type behT struct {
@@ -145,11 +148,12 @@ func waitTick() {
 func (w *world) runBeh(b *behT) []event {
 	evs := []event{{"a": "Reset", "i": b.I}}
 	raw := leveldbstorage.NewMemStorage()
-	db, err := isaacdatabase.NewTempPool(raw, w.encs, w.enc, 0)
+	pe := &parkEnc{Encoder: w.enc, gates: map[string]*setGate{}}
+	db, err := isaacdatabase.NewTempPool(raw, w.encs, pe, 0)
 	if err != nil {
 		panic(err)
 	}
-	fc := &forcer{w: w, db: db, calls: map[int]*inflight{}}
+	fc := &forcer{w: w, db: db, pe: pe, calls: map[int]*inflight{}}
 	defer func() { fc.abandon(); _ = db.Close(); _ = raw.Close() }()
 	if b.Mode == "free" {
 		return append(evs, w.runFree(db, b)...)
@@ -168,6 +172,13 @@ func (w *world) runBeh(b *behT) []event {
 			}
 			evs = append(evs, ev)
 			if pn != "" || err != nil {
+				return evs
+			}
+			waitTick()
+		case "Set2":
+			stop := false
+			evs, stop = fc.set2(evs, s)
+			if stop {
 				return evs
 			}
 			waitTick()
